@@ -59,5 +59,19 @@ PROPS = {
         "trusted_base": COMMON_TRUST + [MODELS + "_pdep_u64"],
         "assumptions": ["NEON/SVE2 engines unverified", "configurations with equal special bytes are outside the property"],
     },
+    "C05": {
+        "level": "proof",
+        "explanation": "The equality of the three engines is decomposed into contracts: (1) PFSM tables == reference machine for all 256 "
+                       "bytes x 4 states; (2) classify_chars of the AVX2 and SSE2 engines is exact per lane for all chunks; (3) one step of "
+                       "process_chunk_standard / process_chunk_simple on any lane of a real classification equals one step of the reference "
+                       "machine in every state, including the bits appended to IB and BP; (4) BitWriter appends exactly the given bits from "
+                       "any state. All four are complete Kani proofs (loop-free or bounded by the chunk width). The per-lane loop indexing is "
+                       "additionally exercised on three consecutive lanes and the outer chunk/tail loops on fixed-length inputs "
+                       "(labelled bounded).",
+        "trusted_base": COMMON_TRUST + [MODELS + "_mm256_min_epu8, _mm256_sub_epi8, _mm_min_epu8, _mm_sub_epi8"],
+        "assumptions": ["NEON/SVE2 engines unverified",
+                        "the two-line runtime dispatchers json::simd::build_semi_index_{standard,simple} (cpuid) are not executed by Kani",
+                        "outer chunk loops of the SIMD builders and the PFSM/scalar byte loops: bounded evidence only (see coverage.bounded)"],
+    },
 }
 FIX_COMMITS = ["2cec8d3"]
